@@ -93,8 +93,36 @@ def run_atxn(ctx, ok_drv):
     ctx.cov["alloctxn_steps"] = hist
     # judged on the real states alone: at a moment when no transaction is open the in-memory allocator equals the bitmap on disk
     opened = set()
+    freed = {}
+    lo = {}
+    pre = None
     for no, l in enumerate(lines, 1):
         w = l.split()
+        if w[0] == "ainit":
+            lo[w[1]] = int(w[2])
+            freed = {}
+        if w[0] == "afree":
+            freed.setdefault((w[2], w[1]), []).append(int(w[3]))
+        if w[0] in ("acommit", "aabort"):
+            for k in list(freed):
+                if k[0] == w[1]:
+                    del freed[k]
+            pre = None
+        if w[0] == "aprecommit":
+            pre = w[1]
+        elif w[0] == "astate" and pre is not None:
+            # between PreCommit and the commit: what the transaction frees must not be available yet
+            for n in freed.get((pre, w[1]), []):
+                if w[2][n - lo[w[1]]] == "0":
+                    ctx.add_violation("alloctxn:freed-number-available-before-commit",
+                                      "after step %d transaction %s has run PreCommit but not committed, and %s number %d, which it frees, is already free in the in-memory allocator: "
+                                      "another transaction can be handed the block while its zero image and its free bit are still in the freeing transaction's private buffers — it "
+                                      "reads the previous owner's bytes through the journal, and the later commit zeroes and frees a block in use" % (no, pre, {"b": "block", "i": "inode"}[w[1]], n),
+                                      {"how": "harness atxn -seed %d (the lines are the history)" % ctx.seed, "history": lines[max(0, no - 40):no]})
+                    pre = "done"
+                    break
+            if w[1] == "i" and pre != "done":
+                pass
         if w[0] in ("aalloc", "afree"):
             opened.add(w[2])
         elif w[0] in ("acommit", "aabort"):
